@@ -391,6 +391,21 @@ func analyzeEpochs(fi *funcInfo) {
 	in := map[*ssa.BasicBlock]map[string]string{}
 	out := map[*ssa.BasicBlock]map[string]string{}
 	fi.epoch = map[ssa.Instruction]map[string]string{}
+	// The fixed point below is pessimistic: a join whose predecessors disagree *during* the iteration
+	// (a value left over from an earlier pass comes back around a loop) becomes a fresh epoch and stays
+	// one, although in the end it merges an epoch X only with itself — a loop without writes then cuts
+	// every relation between the state before and after it.  Such joins are found afterwards (all
+	// predecessors end with X or with the join's own epoch), recorded in joinAlias, and the analysis is
+	// repeated with the join yielding X; the result is checked to be consistent (every predecessor of
+	// an aliased join really ends with X), otherwise the aliases are dropped.
+	joinAlias := map[string]string{}
+	finalRound := false
+	for round := 0; ; round++ { // (body not re-indented: the fixed point below is unchanged)
+	if round > 0 {
+		in = map[*ssa.BasicBlock]map[string]string{}
+		out = map[*ssa.BasicBlock]map[string]string{}
+		fi.epoch = map[ssa.Instruction]map[string]string{}
+	}
 	for iter := 0; iter < 50; iter++ {
 		changed := false
 		for _, b := range fn.Blocks {
@@ -418,6 +433,9 @@ func analyzeEpochs(fi *funcInfo) {
 				}
 				if !same {
 					val = fmt.Sprintf("phi@%d", b.Index)
+					if a, ok := joinAlias[f+"|"+val]; ok {
+						val = a // a join that an earlier round found to merge one epoch with itself (see below)
+					}
 				}
 				st[f] = val
 			}
@@ -474,7 +492,7 @@ func analyzeEpochs(fi *funcInfo) {
 							}
 							continue
 						}
-						if callMayModify(v, f) {
+						if callMayModify(v, f) && !leafCallSpares(v, f) { // (a local struct behind leaf accessors: ext_x8.go)
 							cur[f] = fmt.Sprintf("call@%d.%d", b.Index, i)
 							if os.Getenv("DBG") != "" {
 								fmt.Println("KILL", fn.Name(), f, v.String(), prog.Fset.Position(v.Pos()))
@@ -492,6 +510,58 @@ func analyzeEpochs(fi *funcInfo) {
 			break
 		}
 	}
+	// the aliases in force must be consistent with the result
+	consistent := true
+	for _, b := range fn.Blocks {
+		for f := range fi.fields {
+			x, aliased := joinAlias[f+"|"+fmt.Sprintf("phi@%d", b.Index)]
+			if !aliased {
+				continue
+			}
+			for _, p := range b.Preds {
+				if pv, ok := out[p][f]; ok && pv != x {
+					consistent = false
+				}
+			}
+		}
+	}
+	if !consistent {
+		joinAlias = map[string]string{}
+		finalRound = true // once more, without aliases
+		continue
+	}
+	if finalRound || round >= 5 {
+		break
+	}
+	found := false
+	for _, b := range fn.Blocks {
+		self := fmt.Sprintf("phi@%d", b.Index)
+		for f := range fi.fields {
+			if in[b][f] != self {
+				continue
+			}
+			x, n := "", 0
+			for _, p := range b.Preds {
+				pv, ok := out[p][f]
+				if !ok || pv == self {
+					continue
+				}
+				if pv != x {
+					x = pv
+					n++
+				}
+			}
+			if n == 1 {
+				joinAlias[f+"|"+self] = x
+				found = true
+			}
+		}
+	}
+	if !found {
+		break
+	}
+	}
+	// (A1's post-pass over what is left: φ(v, self) = v, renamed consistently; ext_x1.go)
 	simplifyEpochJoinsX1(fi, in, out)
 	fi.outEpoch = out
 	fi.inEpoch = in
@@ -681,6 +751,11 @@ func (fi *funcInfo) term0(v ssa.Value) Lin {
 			valAtomType[va] = u.Type()
 			noteValAtom(va, u)
 			return atom(va)
+		}
+	}
+	if u, ok := v.(*ssa.UnOp); ok && u.Op == token.MUL {
+		if first := sameCellLoad(u); first != nil { // the same element of a local array, read again (ext_x8.go)
+			return fi.term(first)
 		}
 	}
 	switch x := v.(type) {
@@ -989,6 +1064,10 @@ func (fi *funcInfo) contractFacts(a string, v ssa.Value, seen map[string]bool) [
 				out = append(out, fi.rangeFactsSeen(seen, l)...)
 			}
 		}
+		for _, l := range tableResultFacts(fi, a, call, idx) { // a call through a fixed table of functions (ext_x8.go)
+			out = append(out, l)
+			out = append(out, fi.rangeFactsSeen(seen, l)...)
+		}
 		return out
 	}
 	com := call.Common()
@@ -1062,6 +1141,10 @@ func (fi *funcInfo) contractFacts(a string, v ssa.Value, seen map[string]bool) [
 				out = append(out, l)
 				out = append(out, fi.rangeFactsSeen(seen, l)...)
 			}
+		}
+		for _, l := range tableResultFacts(fi, a, call, 0) { // a call through a fixed table of functions (ext_x8.go)
+			out = append(out, l)
+			out = append(out, fi.rangeFactsSeen(seen, l)...)
 		}
 	}
 	return out
@@ -1192,6 +1275,9 @@ func (fi *funcInfo) condFacts(c ssa.Value, truth bool) []Lin {
 	}
 	if bf := fi.boolResultFacts(c, truth); len(bf) > 0 {
 		return bf
+	}
+	if lf := fi.leafCondFacts(c, truth); len(lf) > 0 { // the boolean result of a leaf accessor (ext_x8.go)
+		return lf
 	}
 	switch x := c.(type) {
 	case *ssa.UnOp:
